@@ -119,6 +119,8 @@ class Engine(object):
         self.samples = []
         self.frontier = []
         self.leftover = []
+        self.inconclusive = []
+        self.inconclusive_paths = 0
         self.complete = True
         self.poisoned = 0
         # per path
@@ -371,6 +373,17 @@ class Engine(object):
                                 self.samples.append({"sample_error": repr(ex)})
                 except Abort:
                     self.cut += 1
+                except Inconclusive as ex:
+                    # this path cannot be decided; keep exploring the others (a reproducing violation elsewhere still
+                    # counts), but the run as a whole can no longer be reported as a pass
+                    self.complete = False
+                    self.inconclusive_paths += 1
+                    if len(self.inconclusive) < 3:
+                        import traceback as _tb
+                        self.inconclusive.append("%s\n%s" % (ex, "".join(_tb.format_tb(ex.__traceback__)[-6:])))
+                    if self.inconclusive_paths >= 25:
+                        self.pending = []
+                        break
                 finally:
                     _CUR[0] = None
                     self.solver.pop()
@@ -381,7 +394,7 @@ class Engine(object):
     def stats(self):
         return {"paths": self.paths, "cut": self.cut, "decisions": self.decisions, "forks": self.forks,
                 "checks": dict(self.checks), "solver_s": round(self.solver_s, 3), "asserts": dict(self.asserts),
-                "complete": self.complete, "poisoned": self.poisoned}
+                "complete": self.complete, "poisoned": self.poisoned, "inconclusive_paths": self.inconclusive_paths}
 
 
 _SIMP = {}
